@@ -1,7 +1,7 @@
 (* Props/Inlines.v — pinned statements about the inline-parser model (Model/Inlines.v: `Subject` of
    src/parser/inlines.rs, tied to the compiled parser by tools/checks/inlines_tie.py). *)
 From Coq Require Import List NArith ZArith Bool Strings.String.
-From V Require Import Base.Bytes Base.Res Model.Ast Model.Inlines Proofs.InlinesProofs.
+From V Require Import Base.Bytes Base.Res Model.Ast Model.Inlines Proofs.InlinesProofs Proofs.InlinesMemo.
 From V Require Model.Scan Model.Strings Proofs.RefDefTitle.
 From V Require Gen.Nodes.
 Import ListNotations.
@@ -82,22 +82,44 @@ Print Assumptions insert_emph_values_inline.
 
 (* ---- 3. the backtick memo (C06) ----
    FULL statement: scan_to_closing_backtick's memo (`scanned_for_backticks && backticks[n] <= pos` answers None
-   without scanning) never changes the result of the inline phase.  It is FALSE of the faithful model, and of
-   comrak: a later scan that stops at its match overwrites backticks[k] with an earlier position. *)
+   without scanning) never changes the result of the inline phase: the parser with the memo and the parser that
+   always scans (`run_inlines_gen false`) agree on every block.  It was FALSE of comrak before the repair of finding
+   INL-1 (a later scan that stopped at its match overwrote backticks[k] with an earlier position); since the table
+   is only written while no scan has reached the end of the input it is a theorem. *)
 Definition backtick_memo_sound_full_statement : Prop := InlinesProofs.backtick_memo_sound_full_statement.
 
-Theorem backtick_memo_refuted : ~ backtick_memo_sound_full_statement.
-Proof. exact backtick_memo_refuted_lemma. Qed.
-Print Assumptions backtick_memo_refuted.
+Theorem backtick_memo_sound : backtick_memo_sound_full_statement.
+Proof. exact backtick_memo_sound_lemma. Qed.
+Print Assumptions backtick_memo_sound.
 
-(* the witness: the last child is the code span x without the memo, a literal backtick with it *)
-Theorem backtick_memo_witness :
+(* the local form.  Invariant of the parser state (InlinesMemo.Inv, kept by every arm of parse_inline:
+   backtick_memo_invariant below): once a scan has reached the end, every maximal backtick run of length
+   n <= MAXBACKTICKS that starts at or after `pos` starts at or before backticks[n].  Under it, when the memo answers
+   "no closer" (backticks[n] <= pos) at a position that does not hold a backtick, the scanning loop started there
+   finds no run of length n, whatever table it is given. *)
+Theorem backtick_memo_local :
+  forall inp s otl fr b,
+    Inv inp s -> bq inp (pos s) = false -> otl <= maxbt ->
+    scanned s = true -> nth otl (bt s) 0 <= pos s ->
+    fst (fst (stcb_loop (skipn (pos s) inp) (pos s) 0 otl fr b)) = None.
+Proof. exact backtick_memo_local_lemma. Qed.
+Print Assumptions backtick_memo_local.
+
+Theorem backtick_memo_invariant :
+  forall memo o u inp lo sl refmap maxref rs0 fuel s,
+    inline_loop memo o u inp lo sl refmap maxref fuel (init_st sl rs0) = Ok s -> Inv inp s.
+Proof. exact backtick_memo_invariant_lemma. Qed.
+Print Assumptions backtick_memo_invariant.
+
+(* Example: the former witness of INL-1 (three backticks, a, a two-backtick span holding a single backtick, d, then a
+   one-backtick span x): the last child is the code span x with and without the memo *)
+Theorem backtick_memo_witness_repaired :
   last_child (run_inlines_gen false io_default oracle_ascii memo_witness [0%N] 1%N [] 100000%N 0%N)
     = Some (Node (Code 1 [x78]) (mkSp 1 21 1 25) [])
   /\ last_child (run_inlines_gen true io_default oracle_ascii memo_witness [0%N] 1%N [] 100000%N 0%N)
-    = Some (Node (Text [x60]) (mkSp 1 25 1 25) []).
+    = Some (Node (Code 1 [x78]) (mkSp 1 21 1 25) []).
 Proof. exact memo_witness_values. Qed.
-Print Assumptions backtick_memo_witness.
+Print Assumptions backtick_memo_witness_repaired.
 
 (* PROVED: the memo only ever replaces an answer by None, and is not consulted before a scan has reached the end *)
 Theorem backtick_memo_partial :
